@@ -26,7 +26,9 @@ RULE = (
     "whose cell values encode (variable, row, column), float64/float32/int64 data with optional NaN holes, default or custom dims, "
     "1-D axis vectors or 2-D meshgrids (C/F order, read-only), Dataset / named / unnamed DataArray inputs with coordinates declared in either "
     "order; plus clear non-meshgrids (deviation >= 10 % of the node spacing, transposed or ij-indexed arrays), wrong name counts, and nested uses "
-    "through BaseGridder.grid and project_grid; plus call histories: consecutive calls on twin inputs (same sizes, same first and last axis "
+    "through BaseGridder.grid and project_grid; equivalent spellings (axis vectors as float / int64 arrays or Python lists, names as bare string, "
+    "list, tuple of 1..4, DataArray names 0 and \"\", extra coordinates / variables that are exactly zero, one bare string offered for several "
+    "variables); plus call histories: consecutive calls on twin inputs (same sizes, same first and last axis "
     "values, same shapes and names; other interior nodes - uniform then non-uniform, non-uniform then another non-uniform, mirrored - and other "
     "values), the same ndarray / Dataset objects edited in place between calls, and returned arrays overwritten before an identical call. Non-trivial = the grid has at least 2 cells with position-encoding values and is not a "
     "square grid with default names (n_north != n_east, or custom dims, or extra coordinates, or >= 2 variables); distinct = hash of the "
@@ -50,6 +52,12 @@ _QUICK_FLOORS = {
     "class:make_n_vars=4": 140, "class:shape_1xn": 250, "class:shape_nx1": 250, "class:shape_non_square": 2000,
     "class:table_dataset": 1400, "class:table_dataarray_named": 250, "class:table_dataarray_unnamed": 60,
     "class:table_coords_declared_northing_first": 300, "class:table_coords_declared_easting_first": 300,
+    # equivalent spellings
+    "spelling:make_axis=list": 75, "spelling:make_axis=ndarray_int64": 130, "spelling:make_data_names=tuple_of_1": 120,
+    "spelling:make_data_names=str_of_1": 85, "spelling:make_extra_coords_names=tuple_of_2": 100, "spelling:make_extra_coords_names=str_of_1": 100,
+    "spelling:make_extra_coordinate_exactly_zero": 120, "spelling:table_falsy_name=0": 12, "spelling:table_falsy_name=''": 12,
+    "spelling:bare_string_name_for_several_variables": 30, "spelling:bare_string_name_for_several_extra_coordinates": 8,
+    "spelling:table_integer_axes": 200,
     # call histories (twins, in-place edits, overwritten results)
     "class:twin_uniform_then_nonuniform": 14, "class:twin_nonuniform_then_uniform": 35, "class:twin_nonuniform_then_nonuniform": 25,
     "class:twin_mirrored": 35, "class:twin_inputs_edited_in_place": 128, "class:twin_returned_arrays_overwritten": 640,
@@ -444,6 +452,15 @@ def install(tap, run):
         run.observe_max("largest_grid_cells_compared", shape[0] * shape[1])
         run.observe_max("mismatching_cells_tolerated", 0)
         run.count("class:make_coords_%s" % ("1d" if ndims[0] == 1 else "2d"))
+        run.count("spelling:make_axis=%s" % ("list" if isinstance(coords[0], list) else "ndarray_" + str(np.asarray(coords[0]).dtype)))
+        if datas is not None:
+            run.count("spelling:make_data_names=%s_of_%d" % (type(data_names).__name__, len(dnames)))
+        if n_extra:
+            run.count("spelling:make_extra_coords_names=%s_of_%d" % (type(extra_names).__name__, len(enames)))
+            if any(not np.any(np.asarray(c)) for c in coords[2:]):
+                run.count("spelling:make_extra_coordinate_exactly_zero")
+        if datas is not None and any(not np.any(np.nan_to_num(np.asarray(v, dtype="float64"), nan=1.0)) for v in datas):
+            run.count("spelling:make_variable_exactly_zero")
         run.count("class:make_extra_coords=%d" % n_extra)
         run.count("class:make_n_vars=%d" % (0 if datas is None else len(datas)))
         if [str(d) for d in dims] != ["northing", "easting"]:
@@ -487,6 +504,10 @@ def install(tap, run):
         witness = {"grid": grid, "kind": kind, "dims": list(dims), "raised": repr(ev.exc)}
         run.evaluated("grid_to_table")
         run.count("class:table_" + kind)
+        if kind == "dataarray_named" and not grid.name:
+            run.count("spelling:table_falsy_name=%r" % (grid.name,))
+        if np.asarray(grid.coords[dims[0]].values).dtype.kind in "iu":
+            run.count("spelling:table_integer_axes")
         run.count("class:table_extra_coords=%d" % len(extras))
         run.count("class:table_n_vars=%d" % len(names))
         order = [str(c) for c in grid.coords if c in dims]
@@ -587,6 +608,17 @@ def gen_axis(rng, n, scale):
     return np.ascontiguousarray(vec, dtype="float64")
 
 
+def gen_int_axis(rng, n):
+    """Integer-valued (int64) non-uniform axis: ascending, descending or shuffled."""
+    vec = np.cumsum(rng.integers(1, 6, n)) + int(rng.integers(-500, 500))
+    mode = rng.random()
+    if mode < 0.2:
+        vec = vec[::-1].copy()
+    elif mode < 0.3:
+        vec = rng.permutation(vec)
+    return np.ascontiguousarray(vec, dtype="int64")
+
+
 def encode(kind, k, shape, rng, dtype=None, holes=False):
     """Values that encode (kind, k, row, column): sign/magnitude separate variables from extra coordinates."""
     i, j = np.indices(shape)
@@ -613,6 +645,8 @@ def gen_grid_inputs(rng, shape=None, force_2d=None):
     scale = float(10 ** rng.uniform(-2, 5))
     e_vec = gen_axis(rng, ne, scale)
     n_vec = gen_axis(rng, nn, scale * float(rng.uniform(0.3, 3)))
+    if rng.random() < 0.12:
+        e_vec, n_vec, scale = gen_int_axis(rng, ne), gen_int_axis(rng, nn), 1.0
     n_vars = int(rng.choice([1, 1, 2, 3, 4]))
     n_extra = int(rng.choice([0, 0, 1, 2, 3]))
     datas = []
@@ -620,6 +654,12 @@ def gen_grid_inputs(rng, shape=None, force_2d=None):
         dtype = str(rng.choice(["float64", "float64", "float64", "float32", "int64"]))
         datas.append(encode("data", k, shape, rng, dtype=dtype, holes=(dtype == "float64" and rng.random() < 0.15)))
     extras = [encode("extra", k, shape, rng) for k in range(n_extra)]
+    if rng.random() < 0.1:
+        # contents that are falsy but valid: an extra coordinate / a variable that is exactly zero everywhere
+        if extras:
+            extras[-1] = np.zeros(shape)
+        elif n_vars > 1:
+            datas[-1] = np.zeros(shape)
     dims = DIM_CHOICES[0] if rng.random() < 0.45 else DIM_CHOICES[int(rng.integers(1, len(DIM_CHOICES)))]
     var_names = [str(v) for v in rng.choice(VAR_NAMES, size=n_vars, replace=False)]
     extra_names = [str(v) for v in rng.choice(EXTRA_NAMES, size=n_extra, replace=False)]
@@ -631,8 +671,8 @@ def gen_grid_inputs(rng, shape=None, force_2d=None):
 def broadcast_mesh(e_vec, n_vec, rng=None):
     """Meshgrid by explicit broadcasting (no numpy.meshgrid): east[i, j] = e[j], north[i, j] = n[i]."""
     nn, ne = n_vec.size, e_vec.size
-    east = np.empty((nn, ne))
-    north = np.empty((nn, ne))
+    east = np.empty((nn, ne), dtype=e_vec.dtype)
+    north = np.empty((nn, ne), dtype=n_vec.dtype)
     for i in range(nn):
         east[i, :] = e_vec
         north[i, :] = n_vec[i]
@@ -653,11 +693,16 @@ def make_arguments(cfg, rng):
         coords = (east, north) + tuple(cfg["extras"])
     else:
         coords = (cfg["e_vec"], cfg["n_vec"]) + tuple(cfg["extras"])
+        if rng.random() < 0.15:
+            # axis vectors as plain Python lists of numbers
+            coords = (cfg["e_vec"].tolist(), cfg["n_vec"].tolist()) + tuple(cfg["extras"])
     if rng.random() < 0.2:
         coords = list(coords)
     datas = cfg["datas"]
     if len(datas) == 1 and rng.random() < 0.5:
-        data, names = datas[0], (cfg["var_names"][0] if rng.random() < 0.6 else [cfg["var_names"][0]])
+        roll = rng.random()
+        data = datas[0]
+        names = cfg["var_names"][0] if roll < 0.5 else ([cfg["var_names"][0]] if roll < 0.75 else (cfg["var_names"][0],))
     else:
         data, names = tuple(datas), (list(cfg["var_names"]) if rng.random() < 0.5 else tuple(cfg["var_names"]))
     kwargs = {}
@@ -667,7 +712,7 @@ def make_arguments(cfg, rng):
         if len(cfg["extras"]) == 1 and rng.random() < 0.5:
             kwargs["extra_coords_names"] = cfg["extra_names"][0]
         else:
-            kwargs["extra_coords_names"] = list(cfg["extra_names"])
+            kwargs["extra_coords_names"] = list(cfg["extra_names"]) if rng.random() < 0.5 else tuple(cfg["extra_names"])
     elif rng.random() < 0.2:
         kwargs["extra_coords_names"] = "ignored_name"
     return coords, data, names, kwargs
@@ -691,7 +736,10 @@ def build_xarray(cfg, rng, xr):
         data_vars = collections.OrderedDict((cfg["var_names"][k], ((d0, d1), cfg["datas"][k])) for k in order)
         return xr.Dataset(data_vars, coords=coords), "dataset"
     if form == 1:
-        return xr.DataArray(cfg["datas"][0], coords=coords, dims=(d0, d1), name=cfg["var_names"][0]), "dataarray_named"
+        roll = rng.random()
+        # names may be any hashable: 0 and "" are falsy but valid names
+        name = 0 if roll < 0.2 else ("" if roll < 0.4 else cfg["var_names"][0])
+        return xr.DataArray(cfg["datas"][0], coords=coords, dims=(d0, d1), name=name), "dataarray_named"
     if form == 2:
         return xr.DataArray(cfg["datas"][0], coords=coords, dims=(d0, d1)), "dataarray_unnamed"
     # a DataArray pulled out of a Dataset keeps the Dataset's coordinates
@@ -817,6 +865,7 @@ def clear_non_meshgrid(cfg, rng):
     nn, ne = cfg["shape"]
     e_vec, n_vec = cfg["e_vec"], cfg["n_vec"]
     east, north = broadcast_mesh(e_vec, n_vec)
+    east, north = east.astype("float64"), north.astype("float64")
     spacing = _smallest_spacing(e_vec, n_vec) or cfg["scale"]
     size = float(rng.choice([0.11, 0.5, 1.0, 5.0])) * spacing * float(rng.choice([-1.0, 1.0]))
     modes = []
@@ -889,11 +938,22 @@ def _stream_reject(run, rng, vu, vd):
         if which == 0:
             wrong = int(rng.choice([k for k in range(0, 6) if k != n_vars]))
             bad_names = ["v%d" % k for k in range(wrong)]
+            if n_vars >= 2 and rng.random() < 0.3:
+                # ONE bare string with as many characters as there are variables is still one name
+                bad_names = "abcdef"[:n_vars]
+                run.count("spelling:bare_string_name_for_several_variables")
+            elif rng.random() < 0.4:
+                bad_names = tuple(bad_names)
             call = lambda: vu.make_xarray_grid(coords, tuple(cfg["datas"]), bad_names, **kwargs)  # noqa: E731
             run.count("class:wrong_data_name_count")
         elif which == 1:
             wrong = int(rng.choice([k for k in range(0, 5) if k != n_extra]))
             kwargs["extra_coords_names"] = ["c%d" % k for k in range(wrong)]
+            if n_extra >= 2 and rng.random() < 0.3:
+                kwargs["extra_coords_names"] = "uvw"[:n_extra]
+                run.count("spelling:bare_string_name_for_several_extra_coordinates")
+            elif rng.random() < 0.4:
+                kwargs["extra_coords_names"] = tuple(kwargs["extra_coords_names"])
             call = lambda: vu.make_xarray_grid(coords, data, names, **kwargs)  # noqa: E731
             run.count("class:wrong_extra_name_count")
         else:
@@ -1010,6 +1070,7 @@ def _stream_twin(run, rng, vu, xr):
         a = gen_grid_inputs(rng)
         while a["shape"][0] < 3 and a["shape"][1] < 3:
             a = gen_grid_inputs(rng)
+        a["e_vec"], a["n_vec"] = a["e_vec"].astype("float64"), a["n_vec"].astype("float64")
         uniform = bool(np.allclose(np.diff(a["e_vec"], 2), 0, atol=1e-9 * abs(a["scale"])) and a["e_vec"].size > 2)
         if uniform:
             kind = "uniform_then_nonuniform"
